@@ -193,7 +193,10 @@ TNext == /\ i < Len(Traces[t].lines)
                 explained == hits # {}
                 k0 == CHOOSE k \in hits : \A j \in hits : k <= j
                 pred == IF explained THEN Do(s, cs[k0].ev, cs[k0].args) ELSE s
-                ag2 == IF explained THEN pred.ag ELSE LostAg(s, line)
+                ag2 == IF explained
+                       THEN [pred.ag EXCEPT !.disturbed =
+                               @ \/ (s.ag.pc = "lost" /\ line.ev \in EnvEvs)]
+                       ELSE LostAg(s, line)
                 v == Verdict(s, line, post, ag2, explained)
             IN /\ st' = [zk |-> CanonZk(post.zk), dir |-> Adopt(pred, explained, post),
                          ag |-> ag2, n |-> St0.n, okstep |-> TRUE, obs |-> post.dir]
